@@ -275,10 +275,147 @@ let run_readdev toks =
          (let k = Stdlib.Buffer.contents keys in if k = "" then "-" else k))
   | _ -> failwith "readdev: missing path"
 
+(* ---------- lww: the sequential reference map ---------- *)
+(* value specs: hex, "-" (empty), @z<len> (zeros), @r<seed>,<len> (xorshift64 bytes) *)
+let gen_bytes (spec : string) : coq_N list =
+  if Stdlib.String.length spec > 0 && spec.[0] = '@' then begin
+    let body = Stdlib.String.sub spec 2 (Stdlib.String.length spec - 2) in
+    match spec.[1] with
+    | 'z' -> Stdlib.List.init (int_of_string body) (fun _ -> N0)
+    | 'r' ->
+      (match Stdlib.String.split_on_char ',' body with
+       | [seed; len] ->
+         let x = ref (Int64.logor (Int64.mul (Int64.of_string seed) 0x9E3779B97F4A7C15L) 1L) in
+         Stdlib.List.init (int_of_string len) (fun _ ->
+             x := Int64.logxor !x (Int64.shift_left !x 13);
+             x := Int64.logxor !x (Int64.shift_right_logical !x 7);
+             x := Int64.logxor !x (Int64.shift_left !x 17);
+             byte_table.(Int64.to_int (Int64.logand !x 0xffL)))
+       | _ -> failwith "bad @r spec")
+    | _ -> failwith "bad value spec"
+  end else bytes_of_hex spec
+
+let z_of_coqz (z : BinNums.coq_Z) : Z.t = match z with
+  | Z0 -> Z.zero | Zpos p -> z_of_pos p | Zneg p -> Z.neg (z_of_pos p)
+let coqz_of_z (z : Z.t) : BinNums.coq_Z =
+  if Z.sign z = 0 then Z0 else if Z.sign z > 0 then Zpos (pos_of_z z) else Zneg (pos_of_z (Z.neg z))
+
+let lww_err = function
+  | Lww.KeyNotFound -> "notfound" | Lww.Older -> "older" | Lww.OutOfMemory -> "oom"
+  | Lww.InvalidKeySize -> "badkey" | Lww.InvalidValueSize -> "badvalue" | Lww.TtlNotEnabled -> "ttloff"
+  | Lww.Unsupported -> "unsupported" | Lww.InvalidOperation -> "invalidop" | Lww.JsonError -> "json"
+
+let fnv_string (s : string) =
+  let h = ref fnv_init in
+  Stdlib.String.iter (fun c -> h := Int64.mul (Int64.logxor !h (Int64.of_int (Char.code c))) fnv_prime) s; !h
+
+let lww_out = function
+  | Lww.OBool b -> if b then "true" else "false"
+  | Lww.OUnit -> "ok"
+  | Lww.OVal v -> Stdlib.Printf.sprintf "val:%016Lx:%d" (fnv_bytes v) (Stdlib.List.length v)
+  | Lww.OInt z -> "int:" ^ Z.to_string (z_of_coqz z)
+  | Lww.ONat n -> "nat:" ^ string_of_n n
+  | Lww.OOptNat None -> "none"
+  | Lww.OOptNat (Some n) -> "some:" ^ string_of_n n
+  | Lww.OPairs l ->
+    let b = Stdlib.Buffer.create 64 in
+    Stdlib.List.iter (fun (k, v) -> Stdlib.Buffer.add_string b (hex_of_bytes k); Stdlib.Buffer.add_char b ':';
+                       Stdlib.Buffer.add_string b (Stdlib.Printf.sprintf "%016Lx;" (fnv_bytes v))) l;
+    Stdlib.Printf.sprintf "pairs:%d:%016Lx" (Stdlib.List.length l) (fnv_string (Stdlib.Buffer.contents b))
+  | Lww.OErr e -> "err:" ^ lww_err e
+  | Lww.OUndecided -> "UNDECIDED"
+  | Lww.OClock n -> "CLOCK:" ^ string_of_n n
+
+let lww_snapshot (s : Lww.st) =
+  let b = Stdlib.Buffer.create 256 in
+  Stdlib.List.iter (fun (k, g) ->
+      Stdlib.Buffer.add_string b (Stdlib.Printf.sprintf "%s:%s:%s:%d;" (hex_of_bytes k)
+                                    (string_of_n g.Lww.g_ts) (string_of_n g.Lww.g_exp) (Stdlib.List.length g.Lww.g_val)))
+    s.Lww.kv;
+  Stdlib.Printf.sprintf "%016Lx" (fnv_string (Stdlib.Buffer.contents b))
+
+let opt_n k toks = let v = opt k toks "-" in if v = "-" then None else Some (n_of_string v)
+
+let split_ops (toks : string list) : string list list =
+  let rec go cur acc = function
+    | [] -> Stdlib.List.rev (Stdlib.List.rev cur :: acc)
+    | "|" :: t -> go [] (Stdlib.List.rev cur :: acc) t
+    | x :: t -> go (x :: cur) acc t in
+  go [] [] toks
+
+let run_lww toks =
+  match split_ops toks with
+  | [] -> failwith "lww: empty"
+  | head :: ops ->
+    let c = { Lww.persistent = (opt "p" head "0" = "1"); Lww.ttl_on = (opt "ttl" head "0" = "1");
+              Lww.version = n_of_string (opt "ver" head "3"); Lww.limit = opt_n "lim" head;
+              Lww.recsize = n_of_string (opt "R" head "0") } in
+    let st = ref Lww.init in
+    let outs = ref [] in
+    let stop = ref false in
+    Stdlib.List.iter (fun o ->
+        if not !stop then begin
+          match o with
+          | [] -> ()
+          | name :: args ->
+            let key k = gen_bytes (opt k args "-") in
+            let env = { Lww.e_shard = n_of_string (opt "sh" args "0"); Lww.e_clk = n_of_string (opt "clk" args "0");
+                        Lww.e_tb = n_of_string (opt "tb" args "0"); Lww.e_ta = n_of_string (opt "ta" args "0");
+                        Lww.e_aux = n_of_string (opt "aux" args "0");
+                        Lww.e_patched = (let p = opt "pj" args "ERR" in if p = "ERR" then None else Some (gen_bytes p)) } in
+            let tsopt = opt_n "ts" args in
+            let ttl = n_of_string (opt "ttl" args "0") in
+            let emit res =
+              outs := Stdlib.Printf.sprintf "%s m=%s n=%d s=%s" res (string_of_n !st.Lww.mem)
+                  (Stdlib.List.length !st.Lww.kv) (lww_snapshot !st) :: !outs;
+              if res = "UNDECIDED" then stop := true in
+            (match name with
+             | "reopen" ->
+               let shards = let v = opt "shards" args "-" in if v = "-" then [] else
+                   Stdlib.List.map (fun e -> match Stdlib.String.split_on_char ':' e with
+                       | [k; sh] -> (bytes_of_hex k, n_of_string sh) | _ -> failwith "bad shard")
+                     (Stdlib.String.split_on_char ',' v) in
+               let clk = parse_exts (opt "clocks" args "-") in
+               (match Lww.reopen c !st env.Lww.e_tb env.Lww.e_ta shards clk with
+                | Lww.ReOk s' -> st := s'; emit "reopened"
+                | Lww.ReUndecided -> emit "UNDECIDED"
+                | Lww.ReClock -> emit "CLOCK:13")
+             | "dump" ->
+               let b = Stdlib.Buffer.create 256 in
+               let und = ref false in
+               Stdlib.List.iter (fun (k, g) ->
+                   let v = match Lww.expired c g env.Lww.e_tb env.Lww.e_ta with
+                     | Lww.Yes -> "expired" | Lww.Unknown -> und := true; "?"
+                     | Lww.No -> Stdlib.Printf.sprintf "%016Lx" (fnv_bytes g.Lww.g_val) in
+                   Stdlib.Buffer.add_string b (Stdlib.Printf.sprintf "%s:%s:%s:%s;" (hex_of_bytes k)
+                                                 (string_of_n g.Lww.g_ts) (string_of_n g.Lww.g_exp) v)) !st.Lww.kv;
+               if !und then emit "UNDECIDED" else emit (Stdlib.Printf.sprintf "dump:%016Lx" (fnv_string (Stdlib.Buffer.contents b)))
+             | _ ->
+               let op = match name with
+                 | "ins" -> Lww.Insert (key "k", key "v", tsopt, ttl, opt "api" args "0" = "1")
+                 | "get" -> Lww.Get (key "k")
+                 | "size" -> Lww.GetSize (key "k")
+                 | "has" -> Lww.Contains (key "k")
+                 | "len" -> Lww.Len
+                 | "del" -> Lww.Delete (key "k", tsopt)
+                 | "incr" -> Lww.Incr (key "k", coqz_of_z (Z.of_string (opt "d" args "0")), tsopt, ttl)
+                 | "ifabs" -> Lww.InsertIfAbsent (key "k", key "v")
+                 | "cas" -> Lww.Cas (key "k", key "x", key "v", tsopt, ttl)
+                 | "json" -> Lww.JsonPatch (key "k", tsopt)
+                 | "uttl" -> Lww.UpdateTtl (key "k", ttl)
+                 | "gttl" -> Lww.GetTtl (key "k")
+                 | "range" -> Lww.Range (key "a", key "b", n_of_string (opt "lim" args "0"))
+                 | "flush" -> Lww.Flush
+                 | other -> failwith ("lww: unknown op " ^ other) in
+               let (s', o) = Lww.step c !st op env in
+               st := s'; emit (lww_out o))
+        end) ops;
+    Stdlib.String.concat " | " (Stdlib.List.rev !outs)
+
 let run_note _ = "note"
 
 let handlers : (string * (string list -> string)) list ref =
-  ref [ ("fs", run_fs); ("open", run_open); ("note", run_note); ("codec", run_codec); ("readdev", run_readdev) ]
+  ref [ ("fs", run_fs); ("open", run_open); ("note", run_note); ("codec", run_codec); ("readdev", run_readdev); ("lww", run_lww) ]
 
 
 let () =
